@@ -873,6 +873,61 @@ pub fn rewrite_mailmap_line(line: &[u8], rewriter: Option<&MailmapRewriter>) -> 
     }
 }
 
+#[cfg(feature = "verif-hooks")]
+pub mod verif {
+    //! Wrapper used by the verification harness (cargo feature `verif-hooks`).
+    use super::*;
+
+    /// Run `finalize_parent_lines` on `prefix ++ parent lines ++ suffix`, with the parent
+    /// records built exactly as `process_commit_line` builds them.
+    /// Returns (new commit buffer, first parent mark, kept parent count).
+    pub fn finalize_parent_lines(
+        prefix: &[u8],
+        parents: &[Vec<u8>],
+        suffix: &[u8],
+        first_parent_mark_in: Option<u32>,
+        emitted_marks: &std::collections::HashSet<u32>,
+        alias_map: &HashMap<u32, u32>,
+    ) -> (Vec<u8>, Option<u32>, usize) {
+        let mut commit_buf = prefix.to_vec();
+        let mut parent_lines: Vec<ParentLine> = Vec::new();
+        for line in parents {
+            let start = commit_buf.len();
+            commit_buf.extend_from_slice(line);
+            let end = commit_buf.len();
+            if line.starts_with(b"merge ") {
+                parent_lines.push(ParentLine::new(
+                    start,
+                    end,
+                    parse_merge_mark(line),
+                    ParentKind::Merge,
+                ));
+            } else {
+                parent_lines.push(ParentLine::new(
+                    start,
+                    end,
+                    parse_from_mark(line),
+                    ParentKind::From,
+                ));
+            }
+        }
+        commit_buf.extend_from_slice(suffix);
+        let mut first_parent_mark = first_parent_mark_in;
+        let kept = super::finalize_parent_lines(
+            &mut commit_buf,
+            &mut parent_lines,
+            &mut first_parent_mark,
+            emitted_marks,
+            alias_map,
+        );
+        (commit_buf, first_parent_mark, kept)
+    }
+
+    pub fn resolve_canonical_mark(mark: u32, alias_map: &HashMap<u32, u32>) -> u32 {
+        super::resolve_canonical_mark(mark, alias_map)
+    }
+}
+
 #[cfg(test)]
 mod tests {
     use super::*;
